@@ -183,6 +183,30 @@ def check_op(rep: Report, cfg: Dict[str, Any], spec: Dict[str, Dict[str, Any]], 
                 rep.violation(f"{op} constraint={con!r}: gradcheck fails on constrained inputs; cfg={label}", {"cfg": cfg, "name": name, "gradcheck": True}, key=f"gradcheck:{op}:{name}")
 
 
+def residual_fixed_group(rep: Report, rng: random.Random, n: int) -> None:
+    """The residual ops are fixed-constraint ops (spec: Tape edges): the forward weight applied at the add equals the
+    backward weight applied at the split, for the residual branch and for the skip branch, for every tau."""
+    import unit_scaling.functional as U
+
+    for _ in range(n):
+        tau = rng.choice([0.25, 0.5, 1.0, 3.0, 10 ** rng.uniform(-3, 3)])
+        x = torch.randn(5, dtype=torch.float64, requires_grad=True)
+        z = torch.zeros(5, dtype=torch.float64)
+        res, skip = U.residual_split(x, tau)
+        up = torch.randn(5, dtype=torch.float64)
+        (g_res,) = torch.autograd.grad(res, x, up, retain_graph=True)
+        (g_skip,) = torch.autograd.grad(skip, x, up)
+        b_res, b_skip = ops.fit(g_res, up)[0], ops.fit(g_skip, up)[0]
+        a = torch.randn(5, dtype=torch.float64)
+        f_res = ops.fit(U.residual_add(a, z, tau), a)[0]
+        f_skip = ops.fit(U.residual_add(z, a, tau), a)[0]
+        rep.case(("residual_group", round(tau, 6)))
+        if abs(f_res - b_res) > TOL * abs(b_res) or abs(f_skip - b_skip) > TOL * abs(b_skip):
+            rep.violation(f"residual ops, tau={tau}: forward weights (residual {f_res:.6g}, skip {f_skip:.6g}) differ from backward weights (residual {b_res:.6g}, skip {b_skip:.6g})",
+                          {"cfg": {"op": "residual", "tau": tau}, "forward": [f_res, f_skip], "backward": [b_res, b_skip]}, key="fixed:residual")
+            return
+
+
 def run(rep: Report, tier: str) -> None:
     rng = random.Random(common.seed() * 41 + 10)
     torch.manual_seed(common.seed())
@@ -206,7 +230,7 @@ def run(rep: Report, tier: str) -> None:
             check_means(rep, s, t, scale, "tlc_state")
         rep.case(("tuple", json.dumps(t["s"])), nontrivial=len(s) >= 2)
     vals = [Fraction(1, 4), Fraction(1, 3), Fraction(1, 2), Fraction(1), Fraction(2), Fraction(3), Fraction(4), Fraction(5, 2), Fraction(1, 5)]
-    big = [[rng.choice(vals) for _ in range(rng.randint(4, 6))] for _ in range(100 if quick else 1000)]
+    big = [[rng.choice(vals) for _ in range(rng.randint(4, 6))] for _ in range(100 if quick else 10000)]
     ev = common.tlc_eval("ScaledOps_Eval", "ScaledOps_Eval.cfg", [{"kind": "mean", "s": [[v.numerator, v.denominator] for v in s]} for s in big], tag="means")
     rep.states += ev["states"]
     rep.transitions += ev["transitions"]
@@ -241,7 +265,8 @@ def run(rep: Report, tier: str) -> None:
             rep.violation(f"linear accepted constraint {bad!r} (spec: error)", {"cfg": {"op": "linear"}, "name": bad}, key=f"invalid_name:{bad}")
         except (ValueError, TypeError):
             pass
-    for cfg in base_cfgs(rng, 3 if quick else 25):
+    residual_fixed_group(rep, rng, 10 if quick else 1000)
+    for cfg in base_cfgs(rng, 3 if quick else 250):
         check_op(rep, cfg, spec, rng, do_gradcheck=True)
     rep.traces = rep.evaluations
     rep.rule = "rule functions: every tuple of 1-3 scales over 7 rationals emitted by TLC (x 1e-6, 1, 1e6) + random tuples of 4-6 evaluated by TLC; ops: every op with a constraint x every valid name x seeded shapes; non-trivial = tuples of >= 2 scales, names other than None/to_output_scale"
@@ -265,6 +290,9 @@ def replay(rep: Report, path: str) -> None:
         check_means(rep, s, ev["out"][0], c.get("scale", 1.0), "replay")
         return
     cfg = c["cfg"]
+    if cfg.get("op") == "residual":
+        residual_fixed_group(rep, random.Random(5), 50)
+        return
     names = ["", "gmean", "hmean", "amean", "to_output_scale", "to_grad_input_scale", "to_left_grad_scale", "to_right_grad_scale"]
     q = [{"kind": "c05", "op": cfg["op"], "name": n} for n in names]
     ev2 = common.tlc_eval("ScaledOps_Eval", "ScaledOps_Eval.cfg", q, tag="c05eval")
